@@ -14,7 +14,7 @@ THEOREMS = {"CbProps.C05": ["CbProps.C05." + t for t in [
     "flat_row_major", "flat_ok_iff", "flat_lt_size", "flat_injective", "flat_surjective",
     "rejected_store_no_state", "get_set"]]}
 
-PATHS = ["local", "global", "param", "member", "pointer", "checked", "try", "double"]
+PATHS = ["local", "global", "param", "member", "pointer", "checked", "try", "double", "long", "short"]
 
 
 def shapes(maxd=3, maxe=5):
@@ -54,10 +54,13 @@ def render(shape, path, ops, use_vars):
     nd = len(shape)
     T = ty(shape)
     L = []
-    acc = {"local": "a", "global": "a", "param": "a", "member": "s.a", "pointer": "a", "checked": "a", "try": "a", "double": "a"}[path]
+    acc = {"local": "a", "global": "a", "param": "a", "member": "s.a", "pointer": "a", "checked": "a", "try": "a", "double": "a", "long": "a", "short": "a"}[path]
     if path == "double":
         # a local array of double; the model's integer value v is stored as v + 0.5
         T = "double" + T[3:]
+    if path in ("long", "short"):
+        # the same accesses on a local array of another integer element type (its own store / load code path)
+        T = path + T[3:]
     ivars = ", ".join("int i%d" % k for k in range(nd))
     iuse = "".join("[i%d]" % k for k in range(nd))
     if path == "member":
@@ -165,7 +168,7 @@ def gen_e2e(seed, tier, gates=()):
     n = 900 if quick else 40000
     for _ in range(n):
         s = r.choice(shp)
-        path = r.choice(["local", "global", "param", "member", "pointer", "double"])
+        path = r.choice(["local", "global", "param", "member", "pointer", "double", "long", "short"])
         if path == "pointer":
             s = [r.range(1, 5)]
         if path == "member" and "member3d" in gates and len(s) > 2:
